@@ -39,7 +39,7 @@ Definition q_binop_ty (o : binop) (lt rt : vty) : option vty :=
     | TStr, _ | _, TStr => None
     | _, _ =>
       match o with
-      | OMod => match lt, rt with TI, TI => Some TI | _, _ => Some TL end
+      | OMod | OIDiv => match lt, rt with TI, TI => Some TI | _, _ => Some TL end   (* `\` like MOD since the fix commit for D46 *)
       | _ =>
         match join lt rt with
         | TD => Some TD
